@@ -84,6 +84,24 @@ def handle : List String → String
     match Hex.decode u, Hex.decode a, d.toNat? with
     | some u, some a, some d => showHP (parseDialAddr splitHostPort parseUint16 (trimBrackets u) a (UInt16.ofNat d))
     | _, _, _ => "bad-op"
+  -- what a stream upstream behind a SOCKS5 proxy (bootstrap configured or not) asks the proxy to connect to
+  | ["s5target", u, a, d] =>
+    match Hex.decode u, Hex.decode a, d.toNat? with
+    | some u, some a, some d =>
+      if Gen.Facts.c18Socks5ConnectsToTarget == some true then
+        showHP ((parseDialAddr splitHostPort parseUint16 (trimBrackets u) a (UInt16.ofNat d)).map
+          (connectTarget true (fun t _ => t) none))
+      else "unconstrained"
+    | _, _, _ => "bad-op"
+  -- the upstreams of one forward plugin built from configuration: per entry, the target dialled
+  | ["fwd", spec] =>
+    match (spec.splitOn ",").mapM bootItem? with
+    | some items =>
+      if !(Gen.Facts.c18FwdUpstreamPerEntry == some true && Gen.Facts.c18Socks5ConnectsToTarget == some true) then "unconstrained" else
+      let ups := fwdUpstreams true (fun _ c => c) [] (items.map (fun (u, a, d, _) => (u, a, d)))
+      ",".intercalate ((ups.zip items).map (fun (c, (_, _, _, obs)) =>
+        if obs then showHP (parseDialAddr splitHostPort parseUint16 (trimBrackets c.1) c.2.1 c.2.2) else "?"))
+    | none => "bad-op"
   | ["sni", u] => match Hex.decode u with
     | some u => Hex.encode (tryRemovePort splitHostPort (trimBrackets u))
     | none => "bad-op"
